@@ -506,6 +506,13 @@ func (ctx *EvalCtx) binary(x *ast.BinaryExpr) CV {
 
 func (ctx *EvalCtx) selector(x *ast.SelectorExpr) CV {
 	ex := ctx.ex
+	// ghost.<var>: mutable ghost state
+	if id, ok := x.X.(*ast.Ident); ok && id.Name == "ghost" {
+		if s, ok := ex.W.ghostVars[x.Sel.Name]; ok {
+			return CV{ex.comp(ctx.state(), "G."+x.Sel.Name, s), nil}
+		}
+		ctx.fail("undeclared ghost variable %s", x.Sel.Name)
+	}
 	// qualified identifier: pkg.Name
 	if id, ok := x.X.(*ast.Ident); ok {
 		if _, isVar := ctx.vars[id.Name]; !isVar {
